@@ -65,7 +65,7 @@ def obligations(tier):
     import json as _json
     import os as _os
     ph = _json.load(open(_os.path.join(_os.path.dirname(_os.path.dirname(_os.path.abspath(__file__))), 'harness', 'c08_phrases.json'), encoding='utf-8'))
-    pick = (lambda lst: lst[:4]) if tier == 'quick' else (lambda lst: lst)
+    pick = (lambda lst: lst[:5]) if tier == 'quick' else (lambda lst: lst)
     obs.append(Ob('O8.7-relative-day-cultures', 'sx', 'harness.apidt:h_relative_day', slices=[{'q': q, 'shift': s, 'culture': c} for c in sorted(ph['day']) for q, s in pick(ph['day'][c])], timeout=t,
                   descr='the relative day expressions of es, fr, pt, de, it, nl, zh that the port supports (hoy / demain / übermorgen / 3 dagen geleden / 大后天 ...): R\'s date + shift, TIMEX = that date, for EVERY reference',
                   bounds='every reference minute 1950..2090; phrases of harness/c08_phrases.json (quick: 4 per culture)', encodes=ENC[:3]))
